@@ -75,7 +75,10 @@ def check_adjacent(d, spec, order, i, left, interp):
 
 def check_move(spec, i, j, left, interp, route="ctor"):
     from discopy.rewriting import InterchangerError
-    d = specs.build(spec, route)
+    if route == "subs":   # a diagram left behind by a substitution
+        d = common.substituted(specs.build(spec))[0]
+    else:
+        d = specs.build(spec, route)
     n = len(d)
     labels = []
     in_range = 0 <= i < n and 0 <= j < n
@@ -163,7 +166,7 @@ def single_cases(draw, tier):
     interp = draw(gen.interpretations([spec], max_dim=2))
     return {"d": spec, "i": i, "j": j, "left": draw(st.booleans()),
             "interp": interp,
-            "route": draw(st.sampled_from(["ctor", "whisker"]))}
+            "route": draw(st.sampled_from(["ctor", "whisker", "subs"]))}
 
 
 def check_single(case):
